@@ -193,6 +193,67 @@ def execute_one(check, run, cov, wall_cap):
         signal.signal(signal.SIGALRM, old)
 
 
+def run_isolated(check, cfg, seed_i, run, wall_cap):
+    """One run = one process image: generation (if run is None) and execution
+    happen in a forked child of a harness process that itself never imports
+    the repository, so no module-level state of the code under test (pool
+    objects, hand-over globals, caches) can leak from one run into the next
+    and a replay in a fresh interpreter sees exactly the same execution.
+    Returns (run, status, payload, digest, coverage)."""
+    r, w = os.pipe()
+    sys.stdout.flush()
+    sys.stderr.flush()
+    pid = os.fork()
+    if pid == 0:
+        code = 0
+        try:
+            os.close(r)
+            cov = Coverage()
+            try:
+                if run is None:
+                    run = check.generate(seed_i, cfg)
+                status, payload, dg = execute_one(check, run, cov, wall_cap)
+                if status == 'ok' and not cov.samples:
+                    cov.samples.append(check.sample_of(run))
+            except BaseException:  # noqa
+                status, payload, dg = 'error', traceback.format_exc(), ''
+            data = pickle.dumps((run, status, payload, dg, cov))
+            off = 0
+            while off < len(data):
+                off += os.write(w, data[off:off + (1 << 16)])
+        except BaseException:  # noqa
+            code = 3
+        finally:
+            os._exit(code)
+    os.close(w)
+    chunks = []
+    deadline = _perf() + wall_cap + 60
+    import select
+    killed = False
+    while True:
+        left = deadline - _perf()
+        if left <= 0:
+            os.kill(pid, signal.SIGKILL)
+            killed = True
+            break
+        rl, _, _ = select.select([r], [], [], min(left, 5.0))
+        if rl:
+            c = os.read(r, 1 << 16)
+            if not c:
+                break
+            chunks.append(c)
+    os.close(r)
+    _, st = os.waitpid(pid, 0)
+    if killed:
+        return run, 'timeout', {'why': 'run killed at hard wall cap'}, '', \
+            Coverage()
+    try:
+        return pickle.loads(b''.join(chunks))
+    except Exception:
+        return run, 'error', 'run process died (wait status {})'.format(
+            st), '', Coverage()
+
+
 def _worker(check, cfg, base_seed, k, jobs, n_runs, t_end, out_fn, wall_cap):
     """Harness worker k: runs i = k, k+jobs, ... ; streams JSON lines."""
     cov = Coverage()
@@ -201,17 +262,21 @@ def _worker(check, cfg, base_seed, k, jobs, n_runs, t_end, out_fn, wall_cap):
     problems = []
     digs = []
     sys.stdout = _Quiet()  # the repo prints progress lines
+    # import (never execute) the code under test once per harness worker: a
+    # forked run then starts from exactly the state a fresh interpreter has
+    # after importing it
+    if hasattr(check, 'preload'):
+        check.preload()
     with open(out_fn, 'w') as out:
         for i in range(k, n_runs, jobs):
             if _perf() > t_end:
                 break
             seed_i = H(base_seed, check.PROPERTY, i)
-            try:
-                run = check.generate(seed_i, cfg)
-            except BaseException:  # noqa
-                problems.append(('error', i, traceback.format_exc()))
-                continue
-            status, payload, dg = execute_one(check, run, cov, wall_cap)
+            run, status, payload, dg, cov_i = run_isolated(
+                check, cfg, seed_i, None, wall_cap)
+            keep = 2 - len(cov.samples)
+            cov_i.samples = cov_i.samples[:max(0, keep)]
+            cov.merge(cov_i)
             done += 1
             digs.append((i, dg))
             if status == 'violation':
@@ -225,8 +290,6 @@ def _worker(check, cfg, base_seed, k, jobs, n_runs, t_end, out_fn, wall_cap):
                 problems.append((status, i, payload))
                 if len(problems) > 5:
                     break
-            elif status == 'ok' and len(cov.samples) < 2:
-                cov.samples.append(check.sample_of(run))
         pickle.dump(
             {
                 'cov': cov,
@@ -321,40 +384,12 @@ def run_batch(check, cfg, base_seed, n_runs, jobs, budget_s, wall_cap=300):
 
 # --------------------------------------------------------- minimisation -----
 def _try(check, run, want, wall_cap):
-    """Executes a candidate in a forked child; True iff the same class at the
-    same site recurs."""
-    r, w = os.pipe()
-    sys.stdout.flush()
-    pid = os.fork()
-    if pid == 0:
-        os.close(r)
-        ok = b'0'
-        try:
-            devnull = os.open(os.devnull, os.O_WRONLY)
-            os.dup2(devnull, 1)
-            status, payload, _ = execute_one(check, run, Coverage(), wall_cap)
-            if status == 'violation' and (payload['property'],
-                                          payload['class'],
-                                          payload['site']) == want:
-                ok = b'1' + json.dumps(payload).encode()
-        except BaseException:  # noqa
-            pass
-        finally:
-            try:
-                os.write(w, ok)
-            finally:
-                os._exit(0)
-    os.close(w)
-    data = b''
-    while True:
-        chunk = os.read(r, 65536)
-        if not chunk:
-            break
-        data += chunk
-    os.close(r)
-    os.waitpid(pid, 0)
-    if data[:1] == b'1':
-        return json.loads(data[1:].decode())
+    """Executes a candidate in its own process; returns the violation payload
+    iff the same class at the same site recurs."""
+    _, status, payload, _, _ = run_isolated(check, {}, 0, run, wall_cap)
+    if status == 'violation' and (payload['property'], payload['class'],
+                                  payload['site']) == want:
+        return payload
     return None
 
 
@@ -426,7 +461,7 @@ def replay(check, fn, verbose=True):
     """Re-executes a replay file.  Returns (reproduced, payload)."""
     with open(fn) as f:
         rp = json.load(f)
-    status, payload, _ = execute_one(check, rp['run'], Coverage(), 600)
+    _, status, payload, _, _ = run_isolated(check, {}, 0, rp['run'], 900)
     exp = rp['expect']
     same = (status == 'violation' and payload['class'] == exp['class']
             and payload['site'] == exp['site'])
